@@ -60,6 +60,8 @@ type concWorld struct {
 	// handOff, when set (C05), receives the Snapshot() of a write transaction (SnapEnd 4): another task reads it while
 	// the transaction goes on - two distinct Txn values, each used by one goroutine
 	handOff func(*fox.Txn)
+	// stale (C06): read-only transactions opened before the last commits of the setup; each is used by one reader
+	stale []*fox.Txn
 }
 
 // ballast routes live under /~, which no key and no probe reaches; they only change the shape (depth) of the tree.
@@ -163,6 +165,19 @@ func buildConcWorld(src sim.Source, res *Result, tsMode int) *concWorld {
 		}
 		cw.ballast, cw.ballastM = n, bm
 		res.inc("runs_on_tree_deeper_than_25")
+	}
+	// one run in four starts from a published state that went through a committed Truncate of a custom verb with routes
+	// (a verb no key uses: its root is gone again, what the removal leaves behind in the published root list stays)
+	if src.Intn("truncatedhistory", 4) == 3 {
+		if _, err := w.R.Handle("UNLINK", ballastPrefix+"unlink", world.Handler(0)); err != nil {
+			res.Trouble = "truncated history: " + err.Error()
+			return nil
+		}
+		if err := w.R.Updates(func(txn *fox.Txn) error { return txn.Truncate("UNLINK") }); err != nil {
+			res.Trouble = "truncated history: " + err.Error()
+			return nil
+		}
+		res.inc("runs_after_a_committed_truncate_of_a_custom_verb")
 	}
 	return cw
 }
@@ -487,15 +502,24 @@ func (cw *concWorld) execServeWith(s *sim.Sched, op COp, inHandler func()) COut 
 // execView reads several keys inside one read-only managed transaction.
 func (cw *concWorld) execView(s *sim.Sched, op COp) COut {
 	var parts []string
+	var torn string
 	_ = cw.w.R.View(func(txn *fox.Txn) error {
 		for _, ki := range op.Keys {
 			k := cw.keys[ki]
 			parts = append(parts, fmt.Sprintf("k%d=%d", ki, tagOrZero(txn.Route(k.Method, k.Pat.Raw))))
 			s.Yield(sim.PtTxnFn)
 		}
+		// one committed version, whichever: the count it reports is the number of routes it iterates
+		n := 0
+		for range txn.Iter().All() {
+			n++
+		}
+		if l := txn.Len(); l != n {
+			torn = fmt.Sprintf("read-only transaction reports Len()=%d but iterates %d routes (not one committed version)", l, n)
+		}
 		return nil
 	})
-	return COut{Snap: strings.Join(parts, ",")}
+	return COut{Snap: strings.Join(parts, ","), Class: torn}
 }
 
 func tagOrZero(r *fox.Route) int {
@@ -735,7 +759,7 @@ func (cw *concWorld) stepRead(st cstate, op COp, out COut) bool {
 		for _, ki := range op.Keys {
 			parts = append(parts, fmt.Sprintf("k%d=%d", ki, st[ki]))
 		}
-		return out.Snap == strings.Join(parts, ",")
+		return out.Class == "" && out.Snap == strings.Join(parts, ",")
 	case "serve":
 		e := cw.expectFor(op.Probe, st.mask())
 		if out.Class != "" || out.Kind != e.Kind || out.Allow != e.Allow {
